@@ -79,6 +79,45 @@ async def sk_move_close_then_deliver(hp, w, rnd, ctx):
     w.check_disk("INBOX")
 
 
+async def sk_delivery_into_freed_numbers_then_restart(hp, w, rnd, ctx):
+    """Message numbers are freed wholesale (RENAME INBOX moves everything out;
+    a mailbox deleted to a placeholder and created again), the agent files
+    new mail under those numbers, the server is restarted: the new messages
+    have exactly the agent's flags -- before and after the restart, in FETCH
+    and on disk after the next flag change."""
+    a = w.session()
+    b = w.session()
+    await w.op_create(a, "ph/child")
+    for nm in ("INBOX", "ph"):
+        for i in range(3):
+            await w.op_append(a, nm, flags=[["\\Seen"], ["\\Answered", "\\Flagged", "kw1"], ["\\Deleted", "\\Seen"]][i])
+    await w.op_select(a, "INBOX")
+    await w.op_select(b, "ph")
+    await w.op_store(b, [1], "add", ["$Forwarded"])
+    await w.op_select(b, "INBOX")
+    await w.observe()
+    await w.op_rename(a, "INBOX", "saved")
+    await w.op_delete(a, "ph")
+    await w.op_create(a, "ph")
+    w.deliver("INBOX", 2, unseen=[True, False])
+    w.deliver("ph", 2, unseen=[False, True])
+    await w.rig.advance(25)
+    await w.op_noop(a)
+    await w.op_noop(b)
+    await w.observe()
+    await w.restart()
+    a = w.session()
+    await w.observe()
+    await w.op_select(a, "INBOX")
+    await w.op_store(a, [1], "add", ["\\Seen"])
+    w.check_disk("INBOX")
+    await w.op_select(a, "ph")
+    await w.op_store(a, [2], "add", ["\\Flagged"])
+    w.check_disk("ph")
+    w.check_disk("saved")
+    await w.observe()
+
+
 async def sk_delivery_while_a_command_is_executing(hp, w, rnd, ctx):
     """The agent files a message while one session's command is still
     executing (slow reader), then another session's flag-changing command
@@ -132,7 +171,7 @@ async def sk_delivery_while_a_command_is_executing(hp, w, rnd, ctx):
 class C13(HistProp):
     prop = PROP
     names = ["INBOX", "other"]
-    skeletons = [sk_number_reuse, sk_delivery_to_idle_unselected_inactive, sk_move_close_then_deliver, sk_delivery_while_a_command_is_executing]
+    skeletons = [sk_number_reuse, sk_delivery_to_idle_unselected_inactive, sk_move_close_then_deliver, sk_delivery_while_a_command_is_executing, sk_delivery_into_freed_numbers_then_restart]
     weights = {"deliver": 16, "store": 8, "store_del": 9, "uid_store": 3, "expunge": 9, "uid_expunge": 3, "move": 4, "copy": 3, "append": 4, "noop": 9, "idle": 5, "advance": 4,
                "fetch_body": 3, "close": 3, "unselect": 3, "restart": 1, "check": 3, "deliver_stalled": 5, "rename_inbox": 1}
     opts = {"rename_targets": ["saved", "kept"]}
